@@ -608,6 +608,8 @@ class Cell:
     if self.mode == "array":
       return z3.Select(src[k], *[to_z3(i, "int") for i in idx])
     cands = self._cands(idx)
+    if not cands:
+      return z3.FreshConst(self.sort, "oob")
     if len(cands) == 1:
       return src[k][self.flat(cands[0])]
     r = src[k][self.flat(cands[-1])]
@@ -647,6 +649,9 @@ class Cell:
       if cg is False:
         continue
       f = self.flat(cd)
+      wm = getattr(self, "wmask", None)
+      if wm is not None:
+        wm[f] = True
       for k in range(self.ncomp):
         self.d[k][f] = vals[k] if cg is True else ite(cg, self._coerce(vals[k]), self._coerce(self.d[k][f]))
 
@@ -663,6 +668,8 @@ class Cell:
         self.a[k] = z3.K(self.a[k].sort().domain(), self._coerce(vals[k])) if self.ndim == 1 else _const_array(self.ndim, self._coerce(vals[k]))
     else:
       self.d = [[vals[k]] * self.size for k in range(self.ncomp)]
+      if getattr(self, "wmask", None) is not None:
+        self.wmask = [True] * self.size
 
 
 def _const_array(ndim, v):
@@ -717,6 +724,30 @@ class Frame:
     self.ret_guard = False
     self.ret_val = None
     self.brk = []
+    self.defg = {}  # name -> guard under which the local has been assigned (absent = on every path)
+    self.lastg = {}
+
+
+def _conjuncts(g):
+  if g is True:
+    return set()
+  if not is_sym(g):
+    return {("const", bool(g))}
+  if z3.is_and(g):
+    out = set()
+    for c in g.children():
+      out |= _conjuncts(c)
+    return out
+  return {g.get_id()}
+
+
+def _implied(active, d):
+  """syntactic check: every conjunct of d is a conjunct of active"""
+  if d is True:
+    return True
+  if active is False:
+    return True
+  return _conjuncts(d) <= _conjuncts(active)
 
 
 _OPS = {
@@ -781,7 +812,12 @@ class Interp:
 
   def lookup(self, fr, name):
     if name in fr.env:
-      return fr.env[name]
+      d = fr.defg.get(name)
+      if d is None:
+        return fr.env[name]
+      if _implied(self.active(fr), d):
+        return fr.env[name]
+      return ite(d, fr.env[name], self.undef_like(fr.env[name], name))
     if name in fr.closure:
       return fr.closure[name]
     if name in fr.g:
@@ -855,10 +891,34 @@ class Interp:
   def assign_name(self, fr, name, val, g):
     if isinstance(val, (Vec, StructVal)):
       val = val.copy()
-    if g is True or name not in fr.env:
+    if g is True:
       fr.env[name] = val
+      fr.defg.pop(name, None)
+    elif name not in fr.env:
+      # first definition under a symbolic guard: on the other paths the (C++) local is uninitialised; the guard under
+      # which it is defined is tracked and reads outside it see an arbitrary value (see lookup)
+      fr.env[name] = val
+      fr.defg[name] = g
+      fr.lastg[name] = g
     else:
       fr.env[name] = ite(g, val, fr.env[name])
+      if name in fr.defg:
+        fr.defg[name] = Or(fr.defg[name], g)
+        fr.lastg[name] = g
+        if fr.defg[name] is True:
+          fr.defg.pop(name)
+
+  def undef_like(self, val, name="v"):
+    if isinstance(val, Vec):
+      return Vec([self.undef_like(c, name) for c in val.c], val.shape, val.dt)
+    if isinstance(val, StructVal):
+      return StructVal(val._stype, {k: self.undef_like(v, name) for k, v in val._f.items()})
+    if isinstance(val, tuple):
+      return tuple(self.undef_like(v, name) for v in val)
+    k = kind(val)
+    if k in ("int", "real", "bool"):
+      return self.fresh_val(k, f"undef:{name}")
+    return val
 
   def stmt(self, fr, s):
     self.nsteps += 1
@@ -885,16 +945,29 @@ class Interp:
         return
       c = b2z(c)
       saved = self.guard
+      before = set(fr.env)
+      entry = self.active(fr)
       self.guard = And(saved, c)
+      g_then = self.active(fr)
       key = self.where(fr, s)
       cov = self.branch_cov.setdefault(key, [False, False])
       if self.guard is not False:
         cov[0] = True
         self.block(fr, s.body)
+      then_new = {n: fr.defg.get(n) for n in fr.env if n not in before}
       self.guard = And(saved, Not(c))
+      g_else = self.active(fr)
       if self.guard is not False:
         cov[1] = True
+        fr.lastg = {}
         self.block(fr, s.orelse)
+        # a local first assigned at the top of BOTH arms is defined whenever the if statement is reached
+        for n, dg in then_new.items():
+          if dg is not None and is_sym(dg) and is_sym(g_then) and z3.eq(dg, g_then) and n in fr.lastg and is_sym(fr.lastg[n]) and is_sym(g_else) and z3.eq(fr.lastg[n], g_else):
+            if entry is True:
+              fr.defg.pop(n, None)
+            else:
+              fr.defg[n] = entry
       self.guard = saved
     elif isinstance(s, ast.Return):
       val = self.expr(fr, s.value) if s.value is not None else None
@@ -949,8 +1022,9 @@ class Interp:
     if not (isinstance(it, ast.Call) and getattr(it.func, "id", None) == "range"):
       seq = self.expr(fr, it)
       if isinstance(seq, (list, tuple, range)):
+        outer_guard = self.guard
+        saved = self.active(fr)
         fr.brk.append([False, False])
-        saved = self.guard
         for v in seq:
           self.guard = self.active_loop(fr, saved)
           if self.guard is False:
@@ -958,7 +1032,7 @@ class Interp:
           fr.brk[-1][1] = False
           self.assign(fr, s.target, v, True)
           self.block(fr, s.body)
-        self.guard = saved
+        self.guard = outer_guard
         fr.brk.pop()
         return
       raise Unsupported("for over non-range")
@@ -971,7 +1045,8 @@ class Interp:
     name = s.target.id
     conc = not is_sym(lo) and not is_sym(hi)
     k = 0
-    saved = self.guard
+    outer_guard = self.guard
+    saved = self.active(fr)  # folds an enclosing loop's break/continue flags into this loop's guard
     fr.brk.append([False, False])
     while True:
       i = arith("+", lo, k * step)
@@ -993,14 +1068,15 @@ class Interp:
       k += 1
       if k > 100000:
         raise Unsupported("loop too long")
-    self.guard = saved
+    self.guard = outer_guard
     fr.brk.pop()
 
   def active_loop(self, fr, saved):
     return And(saved, Not(fr.ret_guard), Not(fr.brk[-1][0]))
 
   def while_(self, fr, s):
-    saved = self.guard
+    outer_guard = self.guard
+    saved = self.active(fr)
     fr.brk.append([False, False])
     k = 0
     while True:
@@ -1024,7 +1100,7 @@ class Interp:
       k += 1
       if k > 100000:
         raise Unsupported("loop too long")
-    self.guard = saved
+    self.guard = outer_guard
     fr.brk.pop()
 
   # ---- assignment
